@@ -381,11 +381,14 @@ pub fn gen_c13(rng: &mut Rng, thorough: bool) -> Vec<Tagged> {
         let mut spec = NetSpec::new(Sh::Flat(1).to_shape());
         spec.layers.push(LayerSpec::One(Simple::Dense { out: 1, act: Act::Linear, bias: false, dropout: None }));
         spec.weights = Some(vec![LW::One(W::Dense(t2(1, 1, &[0.5]), None))]);
-        let lr = *rng.pick(&[0.1f32, -0.05, -0.2, 1.5, 2.0, 2.2, 1e-30, 0.9, 1.0, -1e-30]);
+        let lr = *rng.pick(&[0.1f32, -0.05, -0.2, 1.5, 2.0, 2.2, 1e-30, 0.9, 1.0, -1e-30, 1.05, 1.1, 0.95, 1.02]);
         spec.opt = Opt::SGD { lr, decay: None };
         spec.obj = Obj::MSE;
-        let data = vec![(t1(vec![1.0]), t1(vec![1.0]))];
-        let vt = *rng.pick(&[1.0f32, 0.5, -1.0, 3.0]);
+        // training target 0 with a rate just above 1 makes the weight alternate in sign with growing
+        // (or shrinking) magnitude: zig-zag validation losses whose peaks grow
+        let tt = *rng.pick(&[1.0f32, 0.0, 0.0]);
+        let data = vec![(t1(vec![1.0]), t1(vec![tt]))];
+        let vt = *rng.pick(&[1.0f32, 0.5, -1.0, 3.0, -1.0]);
         let val = vec![(t1(vec![1.0]), t1(vec![vt]))];
         let th = rng.range(1, 6) as i32;
         let epochs = rng.range(1, 12) as i32;
